@@ -1040,7 +1040,7 @@ const HOSTS: &[&str] = &[
     "ｗｗｗ.example.com", "ｅxample.com", "example．com", "www．example.com",
     // dotted edge cases and things the hosts parser refuses
     ".example.com", "example.com.", "example..com", ".", "..", ".com", "com", "localhost",
-    "localhost.localdomain", "a.", ".a.b", "LOCALHOST",
+    "localhost.localdomain", "a.", ".a.b", "LOCALHOST", "localhostr.com", "localhost-ads.example.net", "localhost.tracker.example", "mylocalhost.com",
     // characters
     "exa%mple.com", "a\\b.com", "a.com/", "a.com^", "*.com", "a.com:80", "[::1]", "a,b.com", "a$b.com",
     "a=b.com", "a~b.com", "a|b.com", "@a.com", "a?b.com", "a&b.com", "a+b.com", "a!b.com", "a\"b.com",
@@ -1113,6 +1113,17 @@ fn hosts_cause(host: &str) -> Option<&'static str> {
     }
 }
 
+/// The refusals the hosts parser documents: the name `localhost`, a name without an inner dot, a
+/// trailing dot, characters that cannot be part of a host name, a name IDNA cannot encode.
+fn documented_hosts_refusal(host: &str) -> bool {
+    let h = host.to_lowercase();
+    h == "localhost"
+        || !h.trim_start_matches('.').contains('.')
+        || h.ends_with('.')
+        || h.chars().any(|c| "/^*!?$&(){}[]+=~`|@,'\"><:;".contains(c) || c.is_whitespace())
+        || (!h.is_ascii() && idna::domain_to_ascii(&h).is_err())
+}
+
 fn check_hosts_entry(host: &str, line: &str, uni: &HostUniverse, l: &mut Local) {
     let case = json!({"part": "hosts", "host": host, "line": line});
     let size = (host.len() * 100 + line.len()) as u64;
@@ -1126,10 +1137,22 @@ fn check_hosts_entry(host: &str, line: &str, uni: &HostUniverse, l: &mut Local) 
         Err(loc) => return panic_mismatch(l, &loc, "parse_filter (standard format)", case, size),
         Ok(x) => x,
     };
+    let std_ok = fs.is_ok();
     let (fh, fs) = match (fh, fs) {
         (Err(why), _) => {
             // the hosts parser documents extra refusals (localhost, bare TLD, trailing dot,
-            // characters that cannot be part of a host name): not pinned by the property
+            // characters that cannot be part of a host name): not pinned by the property. Any
+            // other refusal drops an entry whose `||host^` counterpart is a rule.
+            if !documented_hosts_refusal(host) && std_ok {
+                l.hist("hosts:REFUSED-WITHOUT-DOCUMENTED-REASON");
+                l.mismatch(Mismatch {
+                    sig: "c11.hosts.refused-without-documented-reason".into(),
+                    what: format!("hosts line {:?} is refused ({}) although {:?} is a rule and the host is neither localhost, dot-less, dot-terminated nor contains a forbidden character", line, why, std_rule),
+                    case: case.clone(),
+                    size,
+                });
+                return;
+            }
             l.unspecified += 1;
             l.hist(&format!("hosts:refused-{}", why));
             return;
